@@ -68,7 +68,7 @@ func streamC11(env *runEnv) {
 	points := []string{"start", "handshake", "tunnel", "auth", "channel", "data-c2h", "data-h2c", "data-both"}
 	causes := []string{"close-channel", "out-of-order", "unframeable", "tcp-close", "tcp-reset", "close-in-only", "close-out-only",
 		"repeat-channel-create", "close-in-before-first-byte", "unframeable-while-client-not-reading",
-		"out-gone-before-channel-create"}
+		"out-gone-before-channel-create", "unframeable-in-pieces", "host-first-close-channel", "host-first-close-in-only"}
 	reps := 1
 	if env.thorough() {
 		reps = 10
@@ -92,6 +92,12 @@ func streamC11(env *runEnv) {
 						continue
 					}
 					if cause == "out-gone-before-channel-create" && !(transport == "legacy" && point == "auth") {
+						continue
+					}
+					if strings.HasPrefix(cause, "host-first-") && point != "channel" {
+						continue
+					}
+					if cause == "host-first-close-in-only" && transport == "ws" {
 						continue
 					}
 					n++
@@ -259,6 +265,20 @@ func runC11Cell(srv *l2server, transport, point, cause, id string) string {
 		time.Sleep(600 * time.Millisecond) // the relay is now blocked writing to a client that does not read
 		c.send(packetWithLen(ptData, nil, 4))
 		// the client starts reading only after the release has been measured (below)
+	case "unframeable-in-pieces":
+		// a header that announces far more than ever follows; the client stays connected and sends one more short piece
+		c.send(packetWithLen(ptData, []byte("twelve bytes"), 60000))
+		time.Sleep(60 * time.Millisecond)
+		c.send([]byte("and-more"))
+	case "host-first-close-channel", "host-first-close-in-only":
+		// the remote desktop host ends its connection first; the client ends the tunnel afterwards
+		b.hangUp()
+		time.Sleep(150 * time.Millisecond)
+		if cause == "host-first-close-channel" {
+			c.send(packet(ptCloseChannel, nil))
+		} else {
+			c.(*legacyConn).in.Close()
+		}
 	case "repeat-channel-create":
 		c.send(packet(ptChannelCreate, channelCreateBody(host, port)))
 	case "out-gone-before-channel-create":
@@ -334,12 +354,13 @@ func runC11Cell(srv *l2server, transport, point, cause, id string) string {
 		close(startReading)
 	}
 	switch cause {
-	case "close-channel", "out-of-order", "unframeable", "repeat-channel-create", "unframeable-while-client-not-reading":
+	case "close-channel", "out-of-order", "unframeable", "repeat-channel-create", "unframeable-while-client-not-reading",
+		"unframeable-in-pieces", "host-first-close-channel":
 		waitOut()
 		if l, ok := c.(*legacyConn); ok {
 			probeIn(l.in)
 		}
-	case "close-in-only":
+	case "close-in-only", "host-first-close-in-only":
 		waitOut()
 	case "close-out-only":
 		probeIn(c.(*legacyConn).in)
